@@ -62,6 +62,9 @@ def strategy_(draw, tier):
             for k in v:
                 if draw(st.booleans()):
                     v[k] = draw(st.integers(-14, 24))
+        if kind == "cse" and vals:
+            for k in vals[0]:
+                vals[0][k] = draw(st.integers(0, 6))  # keeps swapped shifts / powers inside the modelled domain
         case["steps"] = vals
     return case
 
